@@ -1,12 +1,12 @@
 (* Props/Properties_C15.v — C15: workers are pinned to distinct PUs inside the process mask.
    Only statements; each is closed by [exact] of a lemma from Proofs/AffinityProofs.v or
-   Proofs/AffinityStartupProofs.v.
+   Proofs/AffinityStartupProofs.v or Proofs/AffinityMaskProofs.v.
    [sound_masks t use pm n ms] (Proofs): ms = [{p_0}; ...; {p_(n-1)}] with the p_i pairwise different,
    existing PUs, inside the process mask pm when it is in use.
    All theorems quantify over EVERY topology (list of sockets of cores of PU counts, regular or not),
    every process mask, every thread count, every max_cores; "accepted" = the model returns Ok. *)
 From Coq Require Import List Arith Bool Permutation.
-From Pika Require Import Model.Affinity Proofs.AffinityProofs Proofs.AffinityStartupProofs.
+From Pika Require Import Model.Affinity Proofs.AffinityProofs Proofs.AffinityStartupProofs Proofs.AffinityMaskProofs.
 Import ListNotations.
 
 (* compact: the decoder may sweep the cores a second time and then hands out a PU twice; this is
@@ -180,6 +180,98 @@ Theorem C15_threads_keywords_accepted : forall t use pm,
 Proof. exact keywords_pass_check. Qed.
 Print Assumptions C15_threads_keywords_accepted.
 
+(* ---- the user's process mask: OS indices -> logical indices (Proofs/AffinityMaskProofs.v) ----
+   topology::set_cpubind_mask_main_thread = [set_process_mask t osidx phys]: [phys] = set bits of
+   --pika:process-mask (OS indices), [osidx] = OS index of the logical PUs 0,1,2,...
+   ARBITRARY numbering: one OS index per PU ([length osidx = total_pus t]), injective ([NoDup osidx]);
+   nothing is assumed about order or density.  [os_of osidx j o] := the PU with logical index j has OS
+   index o;  [mask_bits t pm] = set bits of the stored logical mask;  [names_pu osidx b] := bit b is
+   the OS index of some PU.
+   Outcomes, exactly as the code: (1) a set bit at or past the NUMBER of PUs -> "bits past the
+   hardware concurrency"; (2) otherwise an empty USER mask -> "CPU mask is empty"; (3) otherwise
+   accepted, and logical bit j is set iff PU j's OS index is set in the user's mask; the OS indices of
+   the selected PUs are, each once, exactly the user's bits that name a PU (so the count is right).
+   An empty RESULT is not rejected here (Example C15_process_mask_empty_result_accepted). *)
+Theorem C15_process_mask_conversion : forall t osidx phys,
+  length osidx = total_pus t -> NoDup osidx ->
+  ((exists b, In b phys /\ total_pus t <= b) -> set_process_mask t osidx phys = Err EMaskPastHw) /\
+  ((forall b, In b phys -> b < total_pus t) -> phys = [] -> set_process_mask t osidx phys = Err EMaskEmpty) /\
+  ((forall b, In b phys -> b < total_pus t) -> phys <> [] ->
+     exists pm, set_process_mask t osidx phys = Ok pm /\
+       process_mask_bits t osidx phys = Ok (mask_bits t pm) /\
+       (forall j, pm j = true <-> exists o, os_of osidx j o /\ In o phys) /\
+       (forall j, In j (mask_bits t pm) <-> exists o, os_of osidx j o /\ In o phys) /\
+       Permutation (map (fun j => nth j osidx 0) (mask_bits t pm))
+                   (filter (names_pu osidx) (nodup Nat.eq_dec phys)) /\
+       count_mask t pm = length (filter (names_pu osidx) (nodup Nat.eq_dec phys))).
+Proof. exact process_mask_conversion. Qed.
+Print Assumptions C15_process_mask_conversion.
+
+(* accepted iff non-empty and every set bit below the number of PUs: the code looks at nothing else *)
+Theorem C15_process_mask_accepted_iff : forall t osidx phys,
+  (exists pm, set_process_mask t osidx phys = Ok pm) <->
+  (phys <> [] /\ forall b, In b phys -> b < total_pus t).
+Proof. exact process_mask_accepted_iff. Qed.
+Print Assumptions C15_process_mask_accepted_iff.
+
+(* dense numbering (OS indices are 0..#PUs-1 in ANY order, e.g. the "Intel" enumeration): every accepted
+   mask keeps all its bits — the selected PUs' OS indices are the user's bits, as many as the user gave *)
+Theorem C15_process_mask_dense_complete : forall t osidx phys pm,
+  length osidx = total_pus t -> NoDup osidx ->
+  (forall b, b < total_pus t -> In b osidx) ->
+  set_process_mask t osidx phys = Ok pm ->
+  Permutation (map (fun j => nth j osidx 0) (mask_bits t pm)) (nodup Nat.eq_dec phys) /\
+  count_mask t pm = length (nodup Nat.eq_dec phys) /\ 0 < count_mask t pm.
+Proof. exact process_mask_dense_complete. Qed.
+Print Assumptions C15_process_mask_dense_complete.
+
+(* sparse numbering — what the code does (reproduced on the real code, see notes/design/C15.md): a PU whose
+   OS index is >= the number of PUs is never inside an accepted explicit mask, and the mask naming
+   exactly the machine's PUs is rejected as "past the hardware concurrency" *)
+Theorem C15_process_mask_sparse_unselectable : forall t osidx phys pm j o,
+  length osidx = total_pus t ->
+  os_of osidx j o -> total_pus t <= o ->
+  set_process_mask t osidx phys = Ok pm -> pm j = false.
+Proof. exact process_mask_sparse_unselectable. Qed.
+Print Assumptions C15_process_mask_sparse_unselectable.
+
+Theorem C15_process_mask_sparse_machine_mask_rejected : forall t osidx j o,
+  os_of osidx j o -> total_pus t <= o ->
+  set_process_mask t osidx osidx = Err EMaskPastHw.
+Proof. exact process_mask_sparse_machine_mask_rejected. Qed.
+Print Assumptions C15_process_mask_sparse_machine_mask_rejected.
+
+(* (iii') C15_startup_sound about the mask the USER gave ([startup_os] = set_process_mask, then startup):
+   every accepted start-up in a binding mode had a non-empty mask without bits at or past #PUs; exactly n
+   workers; worker i is bound to exactly the PU it reports, that PU has an OS index, and when the mask is
+   in use that OS index is one of the bits the user set; the worker is a member of the one pool whose
+   thread range contains i; two different workers have different PUs AND different OS indices. *)
+Theorem C15_startup_sound_os_mask : forall t osidx phys m use n mc specs s,
+  length osidx = total_pus t -> NoDup osidx ->
+  (m = Compact -> use = true \/ (n <= mc /\ wf_topo t)) ->
+  startup_os t osidx phys (BindMode m) use n mc specs = Ok s ->
+  (phys <> [] /\ forall b, In b phys -> b < total_pus t) /\
+  length (st_workers s) = n /\
+  (forall i w, nth_error (st_workers s) i = Some w ->
+     w_mask w = [w_pu w] /\
+     (exists o, os_of osidx (w_pu w) o /\ (use = true -> In o phys)) /\
+     exists j pool, owners (st_pools s) 0 0 i = [j] /\ nth_error (st_pools s) j = Some pool /\ In (w_pu w) pool) /\
+  (forall i j wi wj oi oj, nth_error (st_workers s) i = Some wi -> nth_error (st_workers s) j = Some wj ->
+     i <> j -> os_of osidx (w_pu wi) oi -> os_of osidx (w_pu wj) oj -> w_pu wi <> w_pu wj /\ oi <> oj) /\
+  map w_pu (st_workers s) = concat (st_pools s) /\
+  Permutation (map w_pu (st_workers s)) (concat (ad_masks (st_ad s))).
+Proof. exact startup_sound_os_mask. Qed.
+Print Assumptions C15_startup_sound_os_mask.
+
+(* more threads than distinct user bits that name a PU: an error, in every binding mode *)
+Theorem C15_oversubscription_rejected_os_mask : forall t osidx phys m n mc specs,
+  length osidx = total_pus t -> NoDup osidx ->
+  length (filter (names_pu osidx) (nodup Nat.eq_dec phys)) < n ->
+  exists e, startup_os t osidx phys (BindMode m) true n mc specs = Err e /\
+            (e = EMaskPastHw \/ e = EMaskEmpty \/ e = EOversubMask).
+Proof. exact oversubscription_rejected_os_mask. Qed.
+Print Assumptions C15_oversubscription_rejected_os_mask.
+
 (* ---- non-vacuity and recorded observations (vm_compute over concrete inputs) ---- *)
 Definition full (k : nat) : nat -> bool := fun i => i <? k.
 Definition pus_of (r : result started) : list (list nat * nat) :=
@@ -243,3 +335,36 @@ Example C15_pools_partition_example :
   configure_pools {| ad_masks := []; ad_pu_nums := []; ad_noaff := []; ad_n := 0 |} [0; 2; 3; 4; 5] [[1; 3]; [0]]
   = Ok [[3; 5]; [2; 4]; [0]].
 Proof. vm_compute. reflexivity. Qed.
+
+(* non-monotone OS numbering (what hwloc shows for "package:1 core:2 pu:2(indexes=0,2,1,3)": core 0 owns
+   OS 0 and 2): the user's mask 0x3 = OS {0,1} becomes the logical mask {0,2} = 0x5 — the two masks
+   differ; 3 workers are too many, 2 workers sit on logical PUs 0 and 2 (the model's answer is the line
+   the real code printed: w=1:0:0|4:2:0) *)
+Example C15_process_mask_nonmonotone :
+  let t := [[2; 2]] in let osidx := [0; 2; 1; 3] in
+  length osidx = total_pus t /\ NoDup osidx /\
+  process_mask_bits t osidx [0; 1] = Ok [0; 2] /\
+  process_mask_bits t osidx [3; 2; 3] = Ok [1; 3] /\
+  pus_of (startup_os t osidx [0; 1] (BindMode Compact) true 2 2 []) = [([0], 0); ([2], 2)] /\
+  startup_os t osidx [0; 1] (BindMode Scatter) true 3 3 [] = Err EOversubMask /\
+  process_mask_bits t osidx [0; 4] = Err EMaskPastHw /\ process_mask_bits t osidx [] = Err EMaskEmpty.
+Proof.
+  cbv zeta. split; [reflexivity|]. split; [repeat constructor; cbn; intuition discriminate|].
+  vm_compute. repeat split.
+Qed.
+
+(* sparse numbering (hwloc: "package:1 core:2 pu:2(indexes=0,4,2,6)"), what the code does:
+   0x55 (exactly the machine's four PUs) is rejected; 0x5 selects logical {0,2}; 0xa names no PU, is
+   accepted by set_cpubind_mask_main_thread and yields the EMPTY logical mask (the start-up then fails in
+   check_num_threads: "... larger than number of processing units available in process mask (0)") *)
+Example C15_process_mask_empty_result_accepted :
+  let t := [[2; 2]] in let osidx := [0; 4; 2; 6] in
+  length osidx = total_pus t /\ NoDup osidx /\
+  process_mask_bits t osidx [0; 2; 4; 6] = Err EMaskPastHw /\
+  process_mask_bits t osidx [0; 2] = Ok [0; 2] /\
+  process_mask_bits t osidx [1; 3] = Ok [] /\
+  startup_os t osidx [1; 3] (BindMode Compact) true 1 1 [] = Err EOversubMask.
+Proof.
+  cbv zeta. split; [reflexivity|]. split; [repeat constructor; cbn; intuition discriminate|].
+  vm_compute. repeat split.
+Qed.
